@@ -225,13 +225,13 @@ pub fn run(args: &Args) {
     let mut w = CaseWriter::new(&args.out, "c09", HEADER9, 60);
     let mut evaluations = 0usize;
     let mut programs: Vec<(String, String)> = vec![];
-    let n_core = if args.thorough() { 600 } else { 60 };
+    let n_core = if args.thorough() { 250 } else { 60 };
     for k in 0..n_core {
         let mut g = Gen { rng: &mut rng, loop_counter: 0 };
         let mut prog = g.program(2 + (k % 2) as u32, 3);
         programs.push(("core".into(), print_program(&mut prog)));
     }
-    let n_pg = if args.thorough() { 600 } else { 60 };
+    let n_pg = if args.thorough() { 250 } else { 60 };
     for k in 0..n_pg {
         let mut g = PGen::new(&mut rng);
         g.with_errors = k % 3 == 0;
@@ -249,7 +249,7 @@ pub fn run(args: &Args) {
         ));
     }
     // rejected programs: one ill-formed line injected
-    let n_rej = if args.thorough() { 300 } else { 40 };
+    let n_rej = if args.thorough() { 120 } else { 40 };
     for k in 0..n_rej {
         let g = PGen::new(&mut rng);
         let src = g.program(1);
@@ -266,7 +266,7 @@ pub fn run(args: &Args) {
             programs.push((format!("corpus:{}", origin.replace("/repo/", "")), text));
         }
     }
-    let max_corpus = if args.thorough() { 400 } else { 60 };
+    let max_corpus = if args.thorough() { 200 } else { 60 };
     let mut corpus_used = 0;
     for (class, src) in programs.iter() {
         if class.starts_with("corpus") {
